@@ -330,6 +330,7 @@ func TestC11Return(t *testing.T) {
 			}
 		}
 		write := func(n *Node) {
+			s.begin("upsert", n)
 			n.n.State.UpsertLocal(s.drawKey(), s.drawVal())
 			s.snapshotLocal(n)
 			s.afterAction()
@@ -354,6 +355,7 @@ func TestC11Return(t *testing.T) {
 		c.Header["nodes"], c.Header["manner"], c.Header["victim"] = N, manner, x.id
 		if manner == "leave" {
 			c.Stepf("%s: leave", x.id)
+			s.begin("leave", x)
 			x.n.State.LeaveLocal()
 			x.left = true
 			s.snapshotLocal(x)
